@@ -46,7 +46,10 @@ class TreeToJson(Transformer):
 def toast(ptnode, high_level, categorical):
     if ptnode.__class__.__name__ == "Token":
         return ptnode.value
-    elif ptnode.data == "start":
+    if ptnode.data not in ("start", "input", "regular", "regular_inparm"):
+        # only the outermost dimension of a high-level type is an ArrayType
+        high_level = False
+    if ptnode.data == "start":
         return toast(ptnode.children[0], high_level, categorical)
     elif ptnode.data == "input":
         assert len(ptnode.children) == 1
